@@ -1,9 +1,9 @@
 #!/usr/bin/env python3
 """Second-round seeding prompt: property text + worktree + a list of change ideas already used (to be avoided)."""
 import json,sys,subprocess
-pid=sys.argv[1]; wt=sys.argv[2]
+pid=sys.argv[1]; wt=sys.argv[2]; V1=sys.argv[3] if len(sys.argv)>3 else "c"; V2=sys.argv[4] if len(sys.argv)>4 else "d"
 base=subprocess.run(['python3','/verif/seed_prompt.py',pid,wt],capture_output=True,text=True).stdout
 d=json.load(open('/verif/seeded/descriptions.json'))
 used=[v for k,v in sorted(d.items()) if not k.startswith('own/')]
-extra="\n\nIMPORTANT additional constraint for this round: other developers already produced the following regressions for this code base; yours (A and B) must be DIFFERENT in mechanism and location from all of them (do not touch the same condition/statement, and do not rely on the same trigger):\n"+"\n".join("  - "+u for u in used)+"\nLook for other places: e.g. the bottom-up `require` path (`make_task_consistent`, `require_scheduled_now`), session-level bookkeeping (`consistent`, `current_executing_task`, `dependency_check_errors`), `update_require_dependency` / `reserve_require_dependency`, the `written_to` route, `Dependency`/`TaskDependency`/`ResourceDependency` methods, `Store` accessors (`get_read_and_write_dependencies_to_resource`, `get_require_dependencies_to_task`, `get_resources_written_by`, …), `Tracking` helpers, `CompositeTracker`, `EventTracker`, `OpenRead`, `MapWriter`, `TypeToAnyMap`, graph iterators and `remove_*` methods — whichever is relevant to the property above. Use `_out/c` and `_out/d` instead of `_out/a` and `_out/b` for the two deliverable directories (and demo files seed_demo_c.rs / seed_demo_d.rs)."
+extra="\n\nIMPORTANT additional constraint for this round: other developers already produced the following regressions for this code base; yours (A and B) must be DIFFERENT in mechanism and location from all of them (do not touch the same condition/statement, and do not rely on the same trigger):\n"+"\n".join("  - "+u for u in used)+"\nLook for other places: e.g. the bottom-up `require` path (`make_task_consistent`, `require_scheduled_now`), session-level bookkeeping (`consistent`, `current_executing_task`, `dependency_check_errors`), `update_require_dependency` / `reserve_require_dependency`, the `written_to` route, `Dependency`/`TaskDependency`/`ResourceDependency` methods, `Store` accessors (`get_read_and_write_dependencies_to_resource`, `get_require_dependencies_to_task`, `get_resources_written_by`, …), `Tracking` helpers, `CompositeTracker`, `EventTracker`, `OpenRead`, `MapWriter`, `TypeToAnyMap`, graph iterators and `remove_*` methods — whichever is relevant to the property above. Use `_out/"+V1+"` and `_out/"+V2+"` instead of `_out/a` and `_out/b` for the two deliverable directories (and demo files seed_demo_"+V1+".rs / seed_demo_"+V2+".rs)."
 print(base+extra)
